@@ -35,7 +35,7 @@ CheckOf(e) ==
     [] e.e = "OpenDone" -> OpenDoneCheck(ab, e.c, e.ok, e.t, e.a, e.i)
     [] e.e = "Q" -> QuietCheck(ab, e.t, e.a, e.i, e.proj, e.act, e.idl)
     [] e.e = "Disp" -> IF e.r \in reqs THEN "harness.freshRequest"
-                       ELSE IF e.c < 0 THEN PlainCheck(ab, e.t, e.a, e.i)
+                       ELSE IF e.c < 0 THEN NoMemberCheck(ab, e.t, e.a, e.i)
                        ELSE IF e.s = 1 THEN SampleCheck(ab, Samp(e, 1))
                        ELSE BlindCheck(ab, 1, e.t, e.a, e.i)
     [] e.e = "Comp" -> IF e.r \notin reqs THEN "harness.knownRequest"
@@ -51,7 +51,7 @@ UpdOf(e) ==
     [] e.e = "OpenCall" -> OpenCallUpd(ab, e.c, e.t, e.a, e.i)
     [] e.e = "OpenDone" -> OpenDoneUpd(ab, e.c, e.ok, e.t, e.a, e.i)
     [] e.e = "Q" -> QuietUpd(ab, e.t, e.a, e.i, e.proj, e.act, e.idl)
-    [] e.e = "Disp" -> IF e.c < 0 THEN PlainUpd(ab, e.t, e.a, e.i)
+    [] e.e = "Disp" -> IF e.c < 0 THEN NoMemberUpd(ab, e.t, e.a, e.i)
                        ELSE IF e.s = 1 THEN SampleUpd(ab, Samp(e, 1))
                        ELSE BlindUpd(ab, 1, e.t, e.a, e.i)
     [] e.e = "Comp" -> IF e.s = 1 THEN SampleUpd(ab, Samp(e, -1))
